@@ -41,4 +41,446 @@ theorem flag_bits (l : Layer) (hd : l.dataOffset < 16) :
   simp only [flags_eq]
   refine ⟨?_, ?_, ?_, ?_, ?_, ?_, ?_, ?_, ?_, ?_⟩ <;> omega
 
+
+theorem parseFixed_cons20 (a0 a1 a2 a3 a4 a5 a6 a7 a8 a9 a10 a11 a12 a13 a14 a15 a16 a17 a18 a19 : UInt8) (rest e : Bytes) :
+    parseFixed ⟨a0 :: a1 :: a2 :: a3 :: a4 :: a5 :: a6 :: a7 :: a8 :: a9 :: a10 :: a11 :: a12 :: a13 :: a14 :: a15 :: a16 :: a17 :: a18 :: a19 :: rest, e⟩ =
+      .ok { srcPort := be16 a0 a1, sPort := [a0, a1], dstPort := be16 a2 a3, dPort := [a2, a3],
+            seq := be32 a4 a5 a6 a7, ack := be32 a8 a9 a10 a11, b12 := a12, b13 := a13,
+            window := be16 a14 a15, checksum := be16 a16 a17, urgent := be16 a18 a19 } := by
+  have L : ∀ k, k ≤ 20 → k ≤ (⟨a0 :: a1 :: a2 :: a3 :: a4 :: a5 :: a6 :: a7 :: a8 :: a9 :: a10 :: a11 :: a12 :: a13 :: a14 :: a15 :: a16 :: a17 :: a18 :: a19 :: rest, e⟩ : Sl).vis.length := by
+    intro k hk; simp only [List.length_cons]; omega
+  unfold parseFixed
+  rw [Sl.slice_ok (by omega) (L 2 (by omega)), Sl.slice_ok (by omega) (L 4 (by omega)),
+      Sl.slice_ok (by omega) (L 8 (by omega)), Sl.slice_ok (by omega) (L 12 (by omega)),
+      Sl.slice_ok (by omega) (L 16 (by omega)), Sl.slice_ok (by omega) (L 18 (by omega)),
+      Sl.slice_ok (by omega) (L 20 (by omega))]
+  simp [u16, u32, Sl.idx, index]
+
+/-- numeric field ranges of the Go types (DataOffset is a 4-bit field on the wire) -/
+def Ranges (l : Layer) : Prop :=
+  l.srcPort < 65536 ∧ l.dstPort < 65536 ∧ l.seq < 4294967296 ∧ l.ack < 4294967296 ∧
+  l.dataOffset < 16 ∧ l.window < 65536 ∧ l.urgent < 65536
+
+instance (l : Layer) : Decidable (Ranges l) := by unfold Ranges; exact inferInstance
+
+/-- the fixed-header reads applied to the fixed-header stores give the fields back -/
+theorem parseFixed_fixed20 (l : Layer) (x y : UInt8) (tail e : Bytes) (hr : Ranges l) :
+    parseFixed ⟨fixed20 l x y ++ tail, e⟩ =
+      .ok { srcPort := l.srcPort, sPort := putBe16 l.srcPort, dstPort := l.dstPort, dPort := putBe16 l.dstPort,
+            seq := l.seq, ack := l.ack, b12 := u8 (flagsAndOffset l / 256), b13 := u8 (flagsAndOffset l),
+            window := l.window, checksum := be16 x y, urgent := l.urgent } := by
+  obtain ⟨h1, h2, h3, h4, h5, h6, h7⟩ := hr
+  simp only [fixed20, putBe16, putBe32, List.cons_append, List.nil_append, List.append_assoc]
+  rw [parseFixed_cons20]
+  simp only [be16_put _ h1, be16_put _ h2, be32_put _ h3, be32_put _ h4, be16_put _ h6, be16_put _ h7]
+
+theorem bit_eq (b : UInt8) (d : Nat) : bit b d = (b.toNat / d % 2 == 1) := rfl
+
+/-- DecodeFromBytes on (fixed header of `l`) ++ option area ++ payload: the fixed fields come
+    back, Contents/Payload are split at DataOffset*4 and the option loop runs on the area. -/
+theorem decode_fixed20 (old l : Layer) (x y : UInt8) (area payload e : Bytes)
+    (hr : Ranges l) (hD : 5 ≤ l.dataOffset) (ha : area.length + 20 = l.dataOffset * 4) :
+    decodeFromBytes Variant.fixed old ⟨fixed20 l x y ++ (area ++ payload), e⟩ =
+      (optLoop Variant.fixed area.length { multipath := false } ⟨area, payload ++ e⟩ >>= fun r =>
+        .ok { layer := { old with
+                srcPort := l.srcPort, sPort := putBe16 l.srcPort, dstPort := l.dstPort, dPort := putBe16 l.dstPort,
+                seq := l.seq, ack := l.ack, dataOffset := l.dataOffset,
+                fin := l.fin, syn := l.syn, rst := l.rst, psh := l.psh, ackF := l.ackF, urg := l.urg,
+                ece := l.ece, cwr := l.cwr, ns := l.ns, window := l.window, checksum := be16 x y,
+                urgent := l.urgent, contents := fixed20 l x y ++ area, payload := payload,
+                options := r.st.options, padding := r.st.padding, multipath := r.st.multipath },
+              trunc := r.trunc, err := r.err }) := by
+  have hD16 : l.dataOffset < 16 := hr.2.2.2.2.1
+  have hfb := flag_bits l hD16
+  simp only at hfb
+  obtain ⟨f0, f1, f2, f3, f4, f5, f6, f7, f8, f9⟩ := hfb
+  have hlen : (fixed20 l x y ++ (area ++ payload)).length = 20 + area.length + payload.length := by
+    simp [fixed20_length]; omega
+  unfold decodeFromBytes
+  simp only [Sl.len, hlen]
+  rw [if_neg (by omega), parseFixed_fixed20 l x y _ e hr]
+  simp only [Res.bind_ok, bit_eq, u8_toNat, f0, f1, f2, f3, f4, f5, f6, f7, f8, f9, b2n_eq]
+  rw [if_neg (by omega), if_neg (by omega)]
+  have h20 : (fixed20 l x y).length = 20 := fixed20_length l x y
+  have hvis : ∀ k, k ≤ 20 + area.length + payload.length →
+      k ≤ (⟨fixed20 l x y ++ (area ++ payload), e⟩ : Sl).vis.length := fun k hk => by rw [hlen]; exact hk
+  rw [show Variant.fixed.resetMultipath = true from rfl]
+  unfold Sl.sliceTo
+  rw [Sl.slice_ok (Nat.zero_le _) (hvis _ (by omega)), Sl.sliceFrom_ok (hvis _ (by omega)),
+      Sl.slice_ok (by omega) (hvis _ (by omega))]
+  simp only [Res.bind_ok, Sl.len]
+  have e1 : ((fixed20 l x y ++ (area ++ payload)).drop 0).take (l.dataOffset * 4 - 0) = fixed20 l x y ++ area := by
+    rw [List.drop_zero, Nat.sub_zero, ← List.append_assoc, List.take_left' (by simp [h20]; omega)]
+  have e2 : (fixed20 l x y ++ (area ++ payload)).drop (l.dataOffset * 4) = payload := by
+    rw [← List.append_assoc, List.drop_left' (by simp [h20]; omega)]
+  have e3 : ((fixed20 l x y ++ (area ++ payload)).drop 20).take (l.dataOffset * 4 - 20) = area := by
+    rw [List.drop_left' h20, List.take_left' (by omega)]
+  simp only [e1, e2, e3, if_true]
+  rfl
+
+theorem optStep_nop (st : OptSt) (rest e : Bytes) :
+    optStep Variant.fixed st ⟨1 :: rest, e⟩ =
+      .ok (.cont (pushOpt st { optionType := 1, optionLength := 1 }) 1) := by
+  simp [optStep, Sl.idx, index, tCPOptionKindEndList, tCPOptionKindNop]
+
+theorem optStep_eol (st : OptSt) (rest e : Bytes) :
+    optStep Variant.fixed st ⟨0 :: rest, e⟩ =
+      .ok (.stop { st := pushOpt { st with padding := rest } { optionType := 0, optionLength := 1 },
+                   trunc := false, err := false }) := by
+  have h : (⟨0 :: rest, e⟩ : Sl).sliceFrom 1 = .ok ⟨rest, e⟩ := by
+    rw [Sl.sliceFrom_ok (by simp)]; simp
+  simp [optStep, Sl.idx, index, tCPOptionKindEndList, h]
+
+theorem optStep_generic (st : OptSt) (k n : Nat) (d rest e : Bytes)
+    (hk : k < 256) (hk0 : k ≠ 0) (hk1 : k ≠ 1) (hk30 : k ≠ 30) (hn : n = d.length + 2) (hn256 : n < 256) :
+    optStep Variant.fixed st ⟨u8 k :: u8 n :: (d ++ rest), e⟩ =
+      .ok (.cont (pushOpt st { optionType := k, optionLength := n, optionData := d }) n) := by
+  have hk' : (u8 k).toNat = k := by rw [u8_toNat]; omega
+  have hn' : (u8 n).toNat = n := by rw [u8_toNat]; omega
+  have hs : (⟨u8 k :: u8 n :: (d ++ rest), e⟩ : Sl).slice 2 n = .ok ⟨d, rest ++ e⟩ := by
+    rw [Sl.slice_ok (by omega) (by simp; omega)]
+    simp [hn]
+  simp [optStep, genericOpt, Sl.idx, index, Sl.len, hk', hn', tCPOptionKindEndList, tCPOptionKindNop,
+    tCPOptionKindMultipathTCP, hk0, hk1, hk30, hs]
+  rw [if_neg (by omega), if_neg (by omega), if_neg (by omega)]
+
+/-- option list + padding as the decoder can leave them (no MPTCP): every option normal, an
+    End-of-list option only in last position, padding only behind an End-of-list option. -/
+def wfOpts : List TcpOption → Bytes → Bool
+  | [], pad => decide (pad = [])
+  | o :: os, pad => optNorm o && (if o.optionType = 0 then decide (os = []) else wfOpts os pad)
+
+/-- what the option loop leaves behind on `encOpts os ++ pad` -/
+def loopSpec : List TcpOption → OptSt → Bytes → OptSt
+  | [], st, _ => st
+  | o :: os, st, pad =>
+    if o.optionType = 0 then pushOpt { st with padding := pad } o else loopSpec os (pushOpt st o) pad
+
+theorem optNorm_elim {o : TcpOption} (h : optNorm o = true) :
+    o.optionType < 256 ∧ o.optionType ≠ 30 ∧
+    o = { optionType := o.optionType, optionLength := o.optionLength, optionData := o.optionData } ∧
+    (isOneByte o = true → o.optionLength = 1 ∧ o.optionData = []) ∧
+    (isOneByte o = false → o.optionLength = o.optionData.length + 2 ∧ o.optionLength < 256) := by
+  unfold optNorm at h
+  simp only [Bool.and_eq_true, decide_eq_true_eq] at h
+  obtain ⟨⟨⟨h1, h2⟩, h3⟩, h4⟩ := h
+  refine ⟨h1, h2, h3, fun hb => ?_, fun hb => ?_⟩
+  · rw [hb] at h4
+    simpa using h4
+  · rw [hb] at h4
+    simpa using h4
+
+/-- The option loop run on the serializer's encoding of a well-formed option list + padding
+    yields exactly that list and padding. -/
+theorem optLoop_enc : ∀ (os : List TcpOption) (st : OptSt) (pad e : Bytes) (fuel : Nat),
+    wfOpts os pad = true → (encOpts true os ++ pad).length ≤ fuel →
+    optLoop Variant.fixed fuel st ⟨encOpts true os ++ pad, e⟩ =
+      .ok { st := loopSpec os st pad, trunc := false, err := false } := by
+  intro os
+  induction os with
+  | nil =>
+    intro st pad e fuel hw _
+    have : pad = [] := by simpa [wfOpts] using hw
+    subst this
+    unfold optLoop
+    simp [encOpts, loopSpec]
+  | cons o os ih =>
+    intro st pad e fuel hw hf
+    simp only [wfOpts, Bool.and_eq_true] at hw
+    obtain ⟨hno, hrest⟩ := hw
+    obtain ⟨h256, h30, hdef, hone, hmulti⟩ := optNorm_elim hno
+    have hlenpos : 0 < (encOpts true (o :: os) ++ pad).length := by
+      simp [encOpts, encOpt]; split <;> simp <;> omega
+    cases fuel with
+    | zero => omega
+    | succ fuel =>
+      unfold optLoop
+      rw [if_neg (by simp only; omega)]
+      simp only
+      by_cases h0 : o.optionType = 0
+      · -- End of list: must be the last option
+        simp only [h0, if_true, decide_eq_true_eq] at hrest
+        subst hrest
+        have hob : isOneByte o = true := by simp [isOneByte, h0]
+        obtain ⟨hl1, hd⟩ := hone hob
+        have eo : o = { optionType := 0, optionLength := 1 } := by rw [hdef, h0, hl1, hd]
+        have : encOpts true [o] ++ pad = 0 :: pad := by
+          simp [encOpts, encOpt, hob, h0]; decide
+        rw [this, optStep_eol]
+        simp only [loopSpec, h0, if_true, eo]
+      · simp only [h0, if_false] at hrest
+        by_cases h1 : o.optionType = 1
+        · have hob : isOneByte o = true := by simp [isOneByte, h1]
+          obtain ⟨hl1, hd⟩ := hone hob
+          have eo : o = { optionType := 1, optionLength := 1 } := by rw [hdef, h1, hl1, hd]
+          have henc : encOpts true (o :: os) ++ pad = 1 :: (encOpts true os ++ pad) := by
+            simp [encOpts, encOpt, hob, h1]; decide
+          rw [henc, optStep_nop]
+          simp only [List.length_cons, List.drop_succ_cons, List.drop_zero]
+          rw [if_neg (by omega)]
+          rw [ih _ pad e fuel hrest (by rw [henc] at hf; simp only [List.length_cons] at hf; omega)]
+          rw [← eo]
+          simp only [loopSpec, h0, if_false]
+        · have hob : isOneByte o = false := by simp [isOneByte, h0, h1]
+          obtain ⟨hl, hl256⟩ := hmulti hob
+          have eo : o = { optionType := o.optionType, optionLength := o.optionData.length + 2, optionData := o.optionData } := by
+            rw [← hl]; exact hdef
+          have henc : encOpts true (o :: os) ++ pad =
+              u8 o.optionType :: u8 (o.optionData.length + 2) :: (o.optionData ++ (encOpts true os ++ pad)) := by
+            have : (o.optionData.length + 2) % 256 = o.optionData.length + 2 := by omega
+            simp [encOpts, encOpt, hob, this]
+          rw [henc, optStep_generic st o.optionType (o.optionData.length + 2) o.optionData _ e h256 h0 h1 h30 rfl (by omega)]
+          simp only
+          have hdrop : (u8 o.optionType :: u8 (o.optionData.length + 2) :: (o.optionData ++ (encOpts true os ++ pad))).drop
+              (o.optionData.length + 2) = encOpts true os ++ pad := by
+            simp [List.drop_succ_cons]
+          rw [if_neg (by simp only [List.length_cons, List.length_append]; omega), hdrop]
+          rw [ih _ pad e fuel hrest (by
+            rw [henc] at hf; simp only [List.length_cons, List.length_append] at hf ⊢; omega)]
+          simp only [loopSpec, h0, if_false]
+          rw [← eo]
+
+theorem loopSpec_eq : ∀ (os : List TcpOption) (st : OptSt) (pad : Bytes),
+    wfOpts os pad = true → st.padding = [] →
+    loopSpec os st pad = { options := st.options ++ os, padding := pad, multipath := st.multipath } := by
+  intro os
+  induction os with
+  | nil =>
+    intro st pad hw hp
+    have : pad = [] := by simpa [wfOpts] using hw
+    subst this
+    cases st; simp_all [loopSpec]
+  | cons o os ih =>
+    intro st pad hw hp
+    simp only [wfOpts, Bool.and_eq_true] at hw
+    obtain ⟨_, hrest⟩ := hw
+    by_cases h0 : o.optionType = 0
+    · simp only [h0, if_true, decide_eq_true_eq] at hrest
+      subst hrest
+      simp [loopSpec, h0, pushOpt]
+    · simp only [h0, if_false] at hrest
+      simp only [loopSpec, h0, if_false]
+      rw [ih (pushOpt st o) pad hrest (by simpa [pushOpt] using hp)]
+      simp [pushOpt]
+
+theorem fold_lt (c : Nat) : Cksum.fold c < 65536 := by
+  unfold Cksum.fold Gp.Gen.Cksum.foldChecksum
+  simp only
+  omega
+
+theorem l4checksum_lt {p : Option Pseudo} {d : Bytes} {c : Nat} (h : l4checksum p d = some c) : c < 65536 := by
+  unfold l4checksum at h
+  split at h
+  · cases h
+  · split at h
+    · cases h
+    · cases h; exact fold_lt _
+
+def endsWithEol : List TcpOption → Bool
+  | [] => false
+  | [o] => o.optionType == 0
+  | _ :: o :: os => endsWithEol (o :: os)
+
+theorem wfOpts_pad_nonempty : ∀ (os : List TcpOption) (pad : Bytes),
+    wfOpts os pad = true → pad ≠ [] → endsWithEol os = true := by
+  intro os
+  induction os with
+  | nil => intro pad hw hp; simp [wfOpts] at hw; exact absurd hw hp
+  | cons o os ih =>
+    intro pad hw hp
+    simp only [wfOpts, Bool.and_eq_true] at hw
+    obtain ⟨_, hrest⟩ := hw
+    by_cases h0 : o.optionType = 0
+    · simp only [h0, if_true, decide_eq_true_eq] at hrest
+      subst hrest
+      simp [endsWithEol, h0]
+    · simp only [h0, if_false] at hrest
+      cases os with
+      | nil => simp [wfOpts] at hrest; exact absurd hrest hp
+      | cons o' os' => simp only [endsWithEol]; exact ih pad hrest hp
+
+theorem wfOpts_of_eol : ∀ (os : List TcpOption) (pad pad' : Bytes),
+    wfOpts os pad = true → endsWithEol os = true → wfOpts os pad' = true := by
+  intro os
+  induction os with
+  | nil => intro pad pad' _ he; simp [endsWithEol] at he
+  | cons o os ih =>
+    intro pad pad' hw he
+    simp only [wfOpts, Bool.and_eq_true] at hw ⊢
+    obtain ⟨hno, hrest⟩ := hw
+    refine ⟨hno, ?_⟩
+    by_cases h0 : o.optionType = 0
+    · simpa [h0] using hrest
+    · simp only [h0, if_false] at hrest ⊢
+      cases os with
+      | nil => simp [endsWithEol, h0] at he
+      | cons o' os' => exact ih pad pad' hrest (by simpa [endsWithEol] using he)
+
+/-- field-equivalence `≈` of C06: everything but Contents/Payload (BaseLayer), the private port
+    slices behind TransportFlow, the Multipath flag derived from the options, and the checksum
+    pseudo-header configuration -/
+def Layer.core (l : Layer) : Layer :=
+  { l with contents := [], payload := [], sPort := [], dPort := [], multipath := false, pseudo := none }
+
+theorem fixLengths_fields (l : Layer) :
+    (fixLengths l).options = l.options ∧ (fixLengths l).srcPort = l.srcPort ∧ (fixLengths l).dstPort = l.dstPort ∧
+    (fixLengths l).seq = l.seq ∧ (fixLengths l).ack = l.ack ∧ (fixLengths l).window = l.window ∧
+    (fixLengths l).urgent = l.urgent ∧ (fixLengths l).checksum = l.checksum ∧
+    (fixLengths l).padding = (if optLen l.options % 4 ≠ 0 then SBuf.zeros (4 - optLen l.options % 4) else l.padding) ∧
+    (fixLengths l).dataOffset = (((fixLengths l).padding.length + optLen l.options + 20) / 4) % 256 := by
+  unfold fixLengths
+  by_cases h : optLen l.options % 4 ≠ 0 <;> simp [h]
+
+/-- Round trip of a layer without MPTCP options: decoding what SerializeTo(FixLengths) wrote
+    gives back the (length-fixed, checksummed) layer, the payload, no error, no truncation. -/
+theorem roundtrip_plain (l : Layer) (payload e : Bytes) (c : Nat) (csum : Bool)
+    (hr : Ranges l) (hck : l.checksum < 65536)
+    (hw : wfOpts l.options l.padding = true)
+    (hal : (optLen l.options + l.padding.length) % 4 = 0)
+    (h60 : 20 + optLen l.options + l.padding.length ≤ 60)
+    (hc : serCk (fixLengths l) true csum payload = some c) :
+    decodeFromBytes Variant.fixed fresh ⟨hdrBytes (fixLengths l) true c ++ payload, e⟩ =
+      .ok { layer := { fixLengths l with
+                        checksum := c, contents := hdrBytes (fixLengths l) true c, payload := payload,
+                        sPort := putBe16 l.srcPort, dPort := putBe16 l.dstPort, multipath := false,
+                        pseudo := none },
+            trunc := false, err := false } := by
+  obtain ⟨r1, r2, r3, r4, r5, r6, r7⟩ := hr
+  obtain ⟨hopt, f1, f2, f3, f4, f5, f6, f7, hpad, hdo0⟩ := fixLengths_fields l
+  -- the checksum value fits 16 bits
+  have hc16 : c < 65536 := by
+    unfold serCk at hc
+    cases csum with
+    | false =>
+      simp only [Bool.false_eq_true, if_false, Option.some.injEq] at hc
+      omega
+    | true => simp only [if_true] at hc; exact l4checksum_lt hc
+  -- the length-fixed layer
+  have hfacts : (optLen l.options + (fixLengths l).padding.length) % 4 = 0 ∧
+      20 + optLen l.options + (fixLengths l).padding.length ≤ 60 ∧
+      wfOpts l.options (fixLengths l).padding = true := by
+    rw [hpad]
+    by_cases h4 : optLen l.options % 4 ≠ 0
+    · have hpne : l.padding ≠ [] := by
+        intro hp; rw [hp] at hal; simp at hal; omega
+      have hpl : 0 < l.padding.length := List.length_pos_iff.mpr hpne
+      rw [if_pos h4]
+      simp only [SBuf.zeros, List.length_replicate]
+      refine ⟨by omega, by omega, ?_⟩
+      exact wfOpts_of_eol _ _ _ hw (wfOpts_pad_nonempty _ _ hw hpne)
+    · rw [if_neg h4]
+      exact ⟨hal, h60, hw⟩
+  obtain ⟨hal', h60', hw'⟩ := hfacts
+  have hdo : (fixLengths l).dataOffset = ((fixLengths l).padding.length + optLen l.options + 20) / 4 := by
+    rw [hdo0]; omega
+  have hrf : Ranges (fixLengths l) := ⟨by omega, by omega, by omega, by omega, by omega, by omega, by omega⟩
+  have harea : (encOpts true l.options ++ (fixLengths l).padding).length + 20 = (fixLengths l).dataOffset * 4 := by
+    simp only [List.length_append, encOpts_length]; omega
+  -- decode
+  have hh : hdrBytes (fixLengths l) true c =
+      fixed20 (fixLengths l) (u8 (c / 256)) (u8 c) ++ (encOpts true l.options ++ (fixLengths l).padding) := by
+    simp [hdrBytes, hopt]
+  rw [hh, List.append_assoc,
+    decode_fixed20 fresh (fixLengths l) _ _ _ payload e hrf (by omega) harea]
+  rw [optLoop_enc l.options _ _ _ _ hw' (Nat.le_refl _)]
+  simp only [Res.bind_ok]
+  rw [loopSpec_eq l.options _ _ hw' rfl]
+  simp only [List.nil_append, be16_put c hc16, f1, f2]
+  simp only [fresh, hopt]
+
+/-! ## The well-formedness predicate of C06 and what the serializer looks at -/
+
+def optsWire : List TcpOption → Nat
+  | [] => 0
+  | o :: os => wireLen o + optsWire os
+
+/-- `wfOpts` with MPTCP options admitted -/
+def wfOptsG : List TcpOption → Bytes → Bool
+  | [], pad => decide (pad = [])
+  | o :: os, pad => optWf o && (if o.optionType = 0 then decide (os = []) else wfOptsG os pad)
+
+def rangesB (l : Layer) : Bool :=
+  decide (l.srcPort < 65536) && decide (l.dstPort < 65536) && decide (l.seq < 4294967296) &&
+  decide (l.ack < 4294967296) && decide (l.dataOffset < 16) && decide (l.window < 65536) &&
+  decide (l.urgent < 65536) && decide (l.checksum < 65536)
+
+/-- C06 `wf`: every field in the range of its wire encoding; options in the decoder's normal form
+    (End-of-list only last, padding only behind it); the header a whole number of 32-bit words of
+    at most 60 bytes. -/
+def wf (l : Layer) : Bool :=
+  rangesB l && wfOptsG l.options l.padding &&
+  decide ((optsWire l.options + l.padding.length) % 4 = 0) &&
+  decide (20 + optsWire l.options + l.padding.length ≤ 60)
+
+def noMptcp (l : Layer) : Bool := l.options.all (fun o => decide (o.optionType ≠ 30))
+
+theorem rangesB_elim {l : Layer} (h : rangesB l = true) : Ranges l ∧ l.checksum < 65536 := by
+  simp only [rangesB, Bool.and_eq_true, decide_eq_true_eq] at h
+  obtain ⟨⟨⟨⟨⟨⟨⟨a, b⟩, c⟩, d⟩, e⟩, f⟩, g⟩, i⟩ := h
+  exact ⟨⟨a, b, c, d, e, f, g⟩, i⟩
+
+theorem plain_of_noMptcp : ∀ (os : List TcpOption) (pad : Bytes),
+    os.all (fun o => decide (o.optionType ≠ 30)) = true → wfOptsG os pad = true →
+    wfOpts os pad = true ∧ optsWire os = optLen os := by
+  intro os
+  induction os with
+  | nil => intro pad _ hw; exact ⟨by simpa [wfOptsG, wfOpts] using hw, rfl⟩
+  | cons o os ih =>
+    intro pad hn hw
+    simp only [List.all_cons, Bool.and_eq_true, decide_eq_true_eq] at hn
+    obtain ⟨hn0, hns⟩ := hn
+    simp only [wfOptsG, Bool.and_eq_true] at hw
+    obtain ⟨ho, hrest⟩ := hw
+    have hon : optNorm o = true := by
+      simp only [optWf, Bool.or_eq_true] at ho
+      rcases ho with ho | ho
+      · exact ho
+      · simp [mptcpNorm, hn0] at ho
+    have hwl : wireLen o = (if isOneByte o then 1 else 2 + o.optionData.length) := by
+      simp [wireLen, hn0]
+    by_cases h0 : o.optionType = 0
+    · simp only [h0, if_true, decide_eq_true_eq] at hrest
+      subst hrest
+      refine ⟨by simp [wfOpts, hon, h0], ?_⟩
+      simp [optsWire, optLen, hwl]
+    · simp only [h0, if_false] at hrest
+      obtain ⟨i1, i2⟩ := ih pad hns hrest
+      refine ⟨by simp [wfOpts, hon, h0, i1], ?_⟩
+      simp [optsWire, optLen, hwl, i2]
+
+/-- the fields SerializeTo reads -/
+def Layer.ser (l : Layer) : Layer :=
+  { l with contents := [], payload := [], sPort := [], dPort := [], multipath := false }
+
+theorem fixLengths_ser (l : Layer) : (fixLengths l).ser = fixLengths l.ser := by
+  unfold fixLengths Layer.ser
+  by_cases h : optLen l.options % 4 ≠ 0 <;> simp [h]
+
+theorem hdrBytes_ser (l : Layer) (fix : Bool) (c : Nat) : hdrBytes l.ser fix c = hdrBytes l fix c := by
+  rfl
+
+theorem fixedLayer_ser (l : Layer) (fix : Bool) : (fixedLayer l fix).ser = fixedLayer l.ser fix := by
+  cases fix <;> simp [fixedLayer, fixLengths_ser]
+
+theorem serCk_ser (l : Layer) (fix csum : Bool) (p : Bytes) : serCk l.ser fix csum p = serCk l fix csum p := by
+  unfold serCk
+  rw [hdrBytes_ser]
+  rfl
+
+/-- the bytes SerializeTo produces (ignoring the mutated layer) -/
+def serBytes (r : Res (Bytes × Layer)) : Res Bytes :=
+  match r with
+  | .ok (b, _) => .ok b
+  | .err e => .err e
+  | .panic k => .panic k
+
+/-- the output bytes depend only on the fields SerializeTo reads -/
+theorem serSpec_bytes_ser (l : Layer) (fix csum : Bool) (p : Bytes) :
+    serBytes (serSpec l.ser fix csum p) = serBytes (serSpec l fix csum p) := by
+  unfold serSpec
+  rw [← fixedLayer_ser, serCk_ser]
+  cases serCk (fixedLayer l fix) fix csum p with
+  | none => rfl
+  | some c => simp only [serBytes, hdrBytes_ser]
+
 end Gp.Tcp
